@@ -2,8 +2,10 @@ package kernel
 
 import (
 	"fmt"
+	"runtime"
 	"sort"
 	"sync"
+	"syscall"
 	"testing/synctest"
 )
 
@@ -44,6 +46,19 @@ type Sched struct {
 	// Current is the task released last. Exactly one task runs between two quiescence points, so code that has
 	// no context to carry its identity (a callback without arguments) can ask who is running.
 	Current string
+
+	// Tracked mode (tasks started with Go): the scheduler keeps the state of every task itself instead of asking
+	// synctest for quiescence. That lets it notice a task that was released but neither parks again nor finishes
+	// because the code under test made it wait for another task (a lock, a once, a pool): after StuckAfterMS of real
+	// time without progress the task is set aside as stuck and the others are scheduled on; it rejoins when it parks
+	// or finishes. Code that never makes one request wait for another behaves exactly as in the synctest mode.
+	tracked      bool
+	running      int
+	changes      int
+	stuck        map[string]bool
+	state        map[string]string // running | parked | done
+	StuckAfterMS int64
+	StuckSeen    []string // tasks that were ever set aside as stuck, in order
 }
 
 func NewSched(tape *Tape, stream string, maxSteps int) *Sched {
@@ -61,8 +76,129 @@ func (s *Sched) Park(task, point string, detail any) string {
 		panic(fmt.Sprintf("sched: task %q parked twice (at %s)", task, point))
 	}
 	s.parked[task] = p
+	if s.tracked {
+		s.setState(task, "parked")
+	}
 	s.mu.Unlock()
 	return <-p.ch
+}
+
+// setState records a task's state (tracked mode; s.mu held).
+func (s *Sched) setState(task, st string) {
+	old := s.state[task]
+	if old == "running" && !s.stuck[task] {
+		s.running--
+	}
+	delete(s.stuck, task)
+	s.state[task] = st
+	if st == "running" {
+		s.running++
+	}
+	s.changes++
+}
+
+// Go starts a task in tracked mode. The task must call Park("start") (or any Park) or return.
+func (s *Sched) Go(task string, f func()) {
+	s.mu.Lock()
+	if !s.tracked {
+		s.tracked, s.stuck, s.state = true, map[string]bool{}, map[string]string{}
+		if s.StuckAfterMS == 0 {
+			s.StuckAfterMS = 400
+		}
+	}
+	s.setState(task, "running")
+	s.mu.Unlock()
+	go func() {
+		defer func() {
+			s.mu.Lock()
+			s.setState(task, "done")
+			s.mu.Unlock()
+		}()
+		f()
+	}()
+}
+
+func realMillis() int64 {
+	var tv syscall.Timeval
+	syscall.Gettimeofday(&tv) // the real clock: the bubble fakes package time only
+	return tv.Sec*1000 + int64(tv.Usec)/1000
+}
+
+// quiesce waits until no task is running: all are parked, done or stuck.
+func (s *Sched) quiesce() {
+	if !s.tracked {
+		synctest.Wait()
+		return
+	}
+	start, last := realMillis(), -1
+	for {
+		s.mu.Lock()
+		running, changes, nstuck := s.running, s.changes, len(s.stuck)
+		if running == 0 && (nstuck == 0 || (changes == last && realMillis()-start > 30)) {
+			// (a task that had been set aside may have been let go by what just ran: give it a moment to park or finish)
+			s.mu.Unlock()
+			return
+		}
+		if running == 0 {
+			if changes != last {
+				last, start = changes, realMillis()
+			}
+			s.mu.Unlock()
+			runtime.Gosched()
+			continue
+		}
+		if changes != last {
+			last, start = changes, realMillis()
+		} else if realMillis()-start > s.StuckAfterMS {
+			for _, t := range SortedKeys(s.state) {
+				if s.state[t] == "running" && !s.stuck[t] {
+					s.stuck[t] = true
+					s.running--
+					s.StuckSeen = append(s.StuckSeen, t)
+				}
+			}
+			s.mu.Unlock()
+			return
+		}
+		s.mu.Unlock()
+		runtime.Gosched()
+	}
+}
+
+// settle waits until every task is parked or done, or nothing has changed for the stuck threshold.
+func (s *Sched) settle() {
+	start, last := realMillis(), -1
+	for {
+		s.mu.Lock()
+		open := 0
+		for _, st := range s.state {
+			if st == "running" {
+				open++
+			}
+		}
+		changes := s.changes
+		s.mu.Unlock()
+		if open == 0 {
+			return
+		}
+		if changes != last {
+			last, start = changes, realMillis()
+		} else if realMillis()-start > s.StuckAfterMS {
+			return
+		}
+		runtime.Gosched()
+	}
+}
+
+// StuckNow lists the tasks that are waiting on something other than the scheduler right now.
+func (s *Sched) StuckNow() []string {
+	s.mu.Lock()
+	defer s.mu.Unlock()
+	var out []string
+	for _, t := range SortedKeys(s.stuck) {
+		out = append(out, t)
+	}
+	return out
 }
 
 // ParkedTasks returns the parked tasks sorted by task name.
@@ -97,6 +233,11 @@ func (s *Sched) Release(task, outcome string) {
 		panic(fmt.Sprintf("sched: release of task %q which is not parked", task))
 	}
 	s.Current = task
+	if s.tracked {
+		s.mu.Lock()
+		s.setState(task, "running")
+		s.mu.Unlock()
+	}
 	p.ch <- outcome
 }
 
@@ -107,10 +248,19 @@ func (s *Sched) Release(task, outcome string) {
 func (s *Sched) Run(enabled func(draining bool) []Event, after func(step int, ev string) error) error {
 	ch := s.Tape.Sub(s.Stream)
 	for {
-		synctest.Wait()
+		s.quiesce()
 		draining := s.Step >= s.MaxSteps || (s.Replay && s.pos >= len(s.Script))
 		evs := enabled(draining)
 		if len(evs) == 0 {
+			if s.tracked {
+				// tasks that are still set aside get one more chance to finish; what remains is a deadlock
+				s.mu.Lock()
+				n := len(s.stuck)
+				s.mu.Unlock()
+				if n > 0 {
+					s.settle()
+				}
+			}
 			return nil
 		}
 		var pick *Event
@@ -164,7 +314,7 @@ func (s *Sched) Run(enabled func(draining bool) []Event, after func(step int, ev
 		s.Trace = append(s.Trace, name)
 		pick.Apply()
 		s.Step++
-		synctest.Wait()
+		s.quiesce()
 		if after != nil {
 			if err := after(s.Step-1, name); err != nil {
 				return err
